@@ -5,4 +5,5 @@ func genAll() {
 	genHashes()
 	genLocks()
 	genDKGTable()
+	genNetRules()
 }
